@@ -31,7 +31,9 @@ struct Job {
 }
 
 /// Classifies an observation: None = the property held.
-fn judge(o: &Obs, input_len: usize) -> Option<&'static str> {
+fn judge(o: &Obs, input_len: usize, archive: bool) -> Option<&'static str> {
+    // a reader caught in a pointer cycle either just spins or grows a vector while spinning
+    if archive && (o.outcome == "hang" || (o.max_alloc > alloc_limit(input_len) && o.millis >= 1000)) { return Some("loop") }
     if o.max_alloc > alloc_limit(input_len) || (o.outcome == "panic" && o.detail.contains("capacity overflow")) { return Some("alloc") }
     match o.outcome.as_str() { "panic" => Some("panic"), "abort" | "exit" => Some("abort"), "hang" => Some("hang"), _ => None }
 }
@@ -84,7 +86,7 @@ fn evaluate(rep: &mut Report, job: &Job, obs: &Obs, samples: bool) {
     rep.trace(PID);
     let observed = json!({"outcome": obs.outcome, "consumed": obs.consumed, "max_single_allocation": obs.max_alloc,
                           "allocation_limit": alloc_limit(job.input_len), "detail": obs.detail, "signal": obs.signal, "millis": obs.millis});
-    match judge(obs, job.input_len) {
+    match judge(obs, job.input_len, job.sig.starts_with("archive/")) {
         Some(effect) => {
             rep.nontrivial(PID, job.key.clone());
             rep.violation(PID, &format!("{}/{effect}", job.sig),
@@ -199,7 +201,8 @@ fn real_ops(a: &archive::Arch, op: &Value) -> Vec<(&'static str, Vec<u8>)> {
         ("find", "A") => vec![("load_object", a.a.name.clone()), ("g_fetch", a.a.name.clone())],
         ("find", "B") => vec![("load_state", vec![]), ("g_fetch", b"state".to_vec())],
         ("find", "C") => vec![("load_object", a.c.name.clone())],
-        ("find", _) => vec![("load_object", a.name_x.clone()), ("publish", a.name_x.clone())],
+        ("find", _) => vec![("load_object", a.name_x.clone())],
+        ("publish", _) => vec![("publish", a.name_x.clone())],
         ("verify", _) => vec![("verify", vec![]), ("g_verify", vec![])],
         _ => vec![("objects", vec![]), ("g_objects", vec![])],
     }
@@ -228,7 +231,7 @@ fn archives(rep: &mut Report, arch_lines: &[Value], args: &Args, nworkers: usize
     // the undamaged archive must read fine (otherwise the layout assumptions are wrong)
     let pristine = Arc::new(arch.bytes.clone());
     let mut sanity = Vec::new();
-    for op in [json!({"k": "find", "n": "A"}), json!({"k": "find", "n": "B"}), json!({"k": "find", "n": "C"}), json!({"k": "find", "n": "X"}),
+    for op in [json!({"k": "find", "n": "A"}), json!({"k": "find", "n": "B"}), json!({"k": "find", "n": "C"}), json!({"k": "find", "n": "X"}), json!({"k": "publish", "n": "X"}),
                json!({"k": "verify", "n": ""}), json!({"k": "objects", "n": ""})] {
         for (rop, arg) in real_ops(&arch, &op) {
             push(&mut sanity, "archive/pristine".into(), format!("pristine|{rop}"), rop, &arg, pristine.clone(), json!("pristine"), Some("ok"));
@@ -248,17 +251,17 @@ fn archives(rep: &mut Report, arch_lines: &[Value], args: &Args, nworkers: usize
         let exp = l["exp"].as_str().unwrap();
         let cls = if exp == "hang" { "cycle".to_string() } else { cor["to"].as_str().unwrap().to_string() };
         for (rop, arg) in real_ops(&arch, &l["op"]) {
-            let sig = format!("archive/{}:{}/{}", cor["f"].as_str().unwrap(), cls, rop.trim_start_matches("g_"));
+            let sig = format!("archive/{}:{}", cor["f"].as_str().unwrap(), cls);
             push(&mut jobs, sig, format!("{cor}|{rop}|{}", l["op"]["n"]), rop, &arg, data.clone(), cor.clone(), Some(exp));
         }
     }
     let model_jobs = jobs.len();
     for (label, data) in arch.extras() {
         let data = Arc::new(data);
-        for op in [json!({"k": "find", "n": "A"}), json!({"k": "find", "n": "B"}), json!({"k": "find", "n": "X"}),
+        for op in [json!({"k": "find", "n": "A"}), json!({"k": "find", "n": "B"}), json!({"k": "find", "n": "X"}), json!({"k": "publish", "n": "X"}),
                    json!({"k": "verify", "n": ""}), json!({"k": "objects", "n": ""})] {
             for (rop, arg) in real_ops(&arch, &op) {
-                let sig = format!("archive/extra:{label}/{}", rop.trim_start_matches("g_"));
+                let sig = format!("archive/extra:{label}");
                 push(&mut jobs, sig, format!("extra|{label}|{rop}|{}", op["n"]), rop, &arg, data.clone(), json!(label), None);
             }
         }
@@ -326,9 +329,13 @@ fn runs(rep: &mut Report, args: &Args) {
     rep.note(PID, "run_cases", json!({"files": files.iter().map(|(r, d)| json!([r, d.len()])).collect::<Vec<_>>(), "corruptions_total": total,
                                       "corruptions_run": cases.len(), "pristine_payload": pristine_payload}));
     let mut n = 0usize;
-    for (rel, flen, rec, off, sub, c) in cases {
-        let inp = c.apply(&sub);
-        let pred = mirror_decode(&rec, &inp);
+    for (rel, flen, rec, off, _sub, c) in cases {
+        // what the intended decoder does with the whole damaged file
+        let fdata = files.iter().find(|(r, _)| *r == rel).map(|(_, d)| d.clone()).unwrap();
+        let mut damaged = fdata.clone();
+        for (i, b) in c.by.iter().enumerate() { if off + c.at + i < damaged.len() { damaged[off + c.at + i] = *b } }
+        if c.cut >= 0 { damaged.truncate(off + c.cut as usize) }
+        let (srec, pred) = if rel == "status.bin" { ("StoredStatus", mirror_decode("StoredStatus", &damaged)) } else { mirror_file(&damaged) };
         let cls_sig = if pred.len_beyond { "len-huge".to_string() } else { c.k.clone() };
         let kinds: &[&str] = if rel == "status.bin" { &["status", "run1"] } else { &["run0", "run1"] };
         for kind in kinds {
@@ -339,7 +346,8 @@ fn runs(rep: &mut Report, args: &Args) {
             let line = format!("X {id} {kind} {} {cut} {} {}", hex(rel.as_bytes()), off + c.at, hex(&c.by));
             let job = Job {
                 id: id.clone(), line, base: None, file: None, input_len: flen,
-                sig: format!("run/{rec}.{}/{cls_sig}/{}", field_name(&rec, pred.fi), if *kind == "status" { "status" } else { "validation" }),
+                // same call sites and input classes as the record-level cases: same signatures
+                sig: format!("codec/{srec}.{}/{cls_sig}", field_name(srec, pred.fi)),
                 pred: None, exact: false, key: format!("run|{rel}|{rec}|{}|{kind}", c.label()),
                 behaviour: json!({"file": rel, "record": rec, "record_offset": off, "corruption": {"k": c.k, "f": c.f, "how": c.how, "at": c.at, "by": hex(&c.by), "cut": c.cut},
                                   "label": c.label(), "command": kind}),
